@@ -288,7 +288,8 @@ class Gen:
                     self.vglist[self.vg] = keys
                     name = r.choice(["", "g", "group%d" % self.vg, "G" * 70])
                     cls = r.choice(["", "c", "gclass", "C" * 65])
-                    L.append("vg %d %d %s %s %d %s" % (F, self.vg, hx(name), hx(cls), len(ms), " ".join(ms)))
+                    L.append("vg %d %d %s %s %d %s%s" % (F, self.vg, hx(name), hx(cls), len(ms), " ".join(ms),
+                                                         " x" if r.random() < 0.3 else ""))
                     self.vg += 1
                     if r.random() < 0.4:
                         for an in attr_names(r, r.choice([1, 2, 3])):
@@ -305,12 +306,22 @@ class Gen:
             # block, which then is the last thing in the file when it is re-opened for writing
             for _ in range(r.choice([ndds, ndds + 1, 2]) if ndds <= 5 else 2):
                 L.append("defonly %d 1104 %d" % (F, self.newref(1104)))
+        nopre = 0
+        if r.random() < 0.3:
+            # space reserved up front and written only in part (or not at all) as the LAST allocation of the session:
+            # the close must extend the file to the reserved end.  No read-back before the close in that case (a
+            # read of reserved space makes the library extend the file itself)
+            for _ in range(r.choice([1, 1, 2])):
+                ln = r.choice([1, 5, 16, 40])
+                L.append("reserve %d 1107 %d %d %s" % (F, self.newref(1107), ln, hexs(rbytes(r, r.choice([0, 0, 1, ln // 2])))))
+            nopre = 1
         if snap_to is not None:
             L.append("snap %d %d" % (F, snap_to))
             if r.random() < 0.5:
                 ref = self.newref(1100)
                 L.append("put %d 1100 %d %s" % (F, ref, hexs(rbytes(r, 7))))
-        L.append("hclose %d" % F)
+                nopre = 0
+        L.append("hclose %d%s" % (F, " 1" if nopre else ""))
 
 
     def edit_op(self, F):
@@ -348,6 +359,17 @@ class Gen:
             n = max(1, min(end - pos, 400))
             L.append("lbw %d %d %d 1 %d %s" % (F, t, rf, pos, hexs(rbytes(r, n))))
             self.lbinfo[(t, rf)] = (bl, nb, max(ln, pos + n))
+        elif c < 0.5 and self.vglist and self.any:
+            # a member added (or the name changed) while a second attachment of the same vgroup comes and goes
+            slot = r.choice(sorted(self.vglist))
+            key = r.choice(self.any)
+            if r.random() < 0.25:
+                L.append("vgaddx %d %d 3 %d %d" % (F, slot, r.randrange(100), r.randrange(2)))
+            elif key not in self.vglist[slot] and key not in self.dead:
+                L.append("vgaddx %d %d 2 %d %d" % (F, slot, key[0], key[1]))
+                self.vglist[slot].append(key)
+                self.vgmem[slot] = self.vgmem.get(slot, 0) + 1
+                self.members.add(key)
         elif c < 0.85 and has_vg:
             slot = r.choice([k for k, v in self.vgmem.items() if v > 0])
             which = r.choice([0, 1, 2, 2, 2])
@@ -815,14 +837,17 @@ def compare(h, R, per_s):
     groups, cur = [], None
     for l in R:
         u = l.split()
-        if len(u) > 1 and u[1] in ("PRE", "PREVH", "PREVG"):
+        if len(u) > 1 and u[1] in ("PRE", "PREVH", "PREVG", "NOPRE"):
             if cur is None or cur["mem"]:
-                cur = {"pre": [], "mem": []}
+                cur = {"pre": [], "mem": [], "nopre": False}
                 groups.append(cur)
-            cur["pre"].append(" ".join(u[1:]))
+            if u[1] == "NOPRE":
+                cur["nopre"] = True
+            else:
+                cur["pre"].append(" ".join(u[1:]))
         elif len(u) > 1 and u[1] == "MEM":
             if cur is None:
-                cur = {"pre": [], "mem": []}
+                cur = {"pre": [], "mem": [], "nopre": False}
                 groups.append(cur)
             cur["mem"].append(u[2:])
         elif cur is not None and cur["mem"]:
@@ -997,7 +1022,7 @@ def compare(h, R, per_s):
                 bad.append(("MEM", "descriptor list in memory differs from the list parsed from the bytes"))
             pre = groups[g]["pre"]
             PE = keyed(pre, "PRE", 2)
-            for k in sorted(set(PE) | set(SE), key=lambda k: (int(k[0]), int(k[1]))):
+            for k in ([] if groups[g].get("nopre") else sorted(set(PE) | set(SE), key=lambda k: (int(k[0]), int(k[1])))):
                 if k not in PE or k not in SE:
                     bad.append(("PRE", "element %s/%s seen only by %s" % (k[0], k[1], "the writing session" if k in PE else "h4read (closed file)")))
                     continue
@@ -1007,7 +1032,7 @@ def compare(h, R, per_s):
                 if PE[k] != SE[k]:
                     bad.append(("PRE", "element %s/%s: the writing session read %s, the closed file holds %s" % (
                         k[0], k[1], " ".join(PE[k])[:120], " ".join(SE[k])[:120])))
-            for pfx, spfx in (("PREVH", "VH"), ("PREVG", "VG")):
+            for pfx, spfx in ([] if groups[g].get("nopre") else [("PREVH", "VH"), ("PREVG", "VG")]):
                 PV, SV = keyed(pre, pfx, 1), keyed(S, spfx, 1)
                 for k in sorted(set(PV) | set(SV), key=lambda k: int(k[0])):
                     stats[pfx] = stats.get(pfx, 0) + 1
